@@ -1,6 +1,7 @@
 """C06 — Operator string stays a consistent periodic world-line configuration."""
 from checks import full_step
 from checks import extra_audits
+from checks import api_cov
 LEAN_TARGETS = ["drv_step", "QmcProofs.Refinement", "QmcProps.C06", "drv_c06"]
 BINS = ["fullstep", "c06"]
 
@@ -59,4 +60,5 @@ def main(ck):
         cases = ck.harness("c06", ["f12"])
         ck.correspond("rvb-zero-word", "drv_c06", cases)
     full_step.run(ck)   # whole-timestep exact trajectories, Ising and generic sampler
+    api_cov.run(ck, "c06")   # otherwise unexercised public API, model-free oracles of this property
     return ck.finish(RULE)
